@@ -1,19 +1,35 @@
-//! Shared generators.
+//! Shared generators and log-derived facts.
 use crate::scenario::*;
-use std::time::Duration;
-use vp_common::{Cli, Rng};
-use vp_sim::recadapters::{AdapterScript, Outcome, TargetRec};
 use passage_adapters::authentication::{Profile, ProfileProperty};
+use serde_json::Value;
+use std::time::Duration;
+use vp_common::refcodec::Pkt;
+use vp_common::refcrypto;
+use vp_common::{Cli, Rng};
+use vp_sim::recadapters::{AdapterScript, Call, CallRecord, Outcome, TargetRec};
 
 pub fn ident(rng: &mut Rng, tag: &str) -> Ident {
     Ident { name: format!("{tag}_{}", rng.ascii_name(3, 9)), uuid: ((rng.u64() as u128) << 64) | rng.u64() as u128 }
+}
+
+pub fn props(rng: &mut Rng, n: usize) -> Vec<Prop> {
+    (0..n)
+        .map(|i| Prop {
+            name: if i == 0 { "textures".to_string() } else { format!("p{}_{}", i, rng.ascii_name(1, 5)) },
+            value: vp_common::report::hex(&rng.bytes_between(1, 24)),
+            signature: if rng.bool() { Some(vp_common::report::hex(&rng.bytes(12))) } else { None },
+        })
+        .collect()
 }
 
 pub fn profile(id: &Ident, props: &[Prop]) -> Profile {
     Profile {
         id: uuid::Uuid::from_u128(id.uuid),
         name: id.name.clone(),
-        properties: props.iter().map(|p| ProfileProperty { name: p.name.clone(), value: p.value.clone(), signature: p.signature.clone() }).collect(),
+        properties: props
+            .iter()
+            .map(|p| ProfileProperty { name: p.name.clone(), value: p.value.clone(), signature: p.signature.clone() })
+            .collect(),
         profile_actions: vec![],
     }
 }
@@ -22,14 +38,139 @@ pub fn target(id: &str, addr: &str) -> TargetRec {
     TargetRec { identifier: id.to_string(), address: addr.parse().expect("addr"), meta: vec![] }
 }
 
+pub fn secret16(rng: &mut Rng) -> [u8; 16] {
+    let mut s = [0u8; 16];
+    rng.fill(&mut s);
+    s
+}
+
+pub fn random_addr(rng: &mut Rng) -> String {
+    match rng.below(6) {
+        0 => format!("[2001:db8::{:x}:{:x}]:{}", rng.below(0xffff), rng.below(0xffff), rng.range(1, 65535)),
+        1 => format!("[::ffff:10.{}.{}.{}]:{}", rng.below(256), rng.below(256), rng.below(256), rng.range(1, 65535)),
+        _ => format!("{}.{}.{}.{}:{}", rng.range(1, 223), rng.below(256), rng.below(256), rng.range(1, 254), *rng.pick(&[0u16, 1, 25565, 65535, 30000])),
+    }
+}
+
+pub fn targets(rng: &mut Rng, n: usize) -> Vec<TargetRec> {
+    (0..n)
+        .map(|i| {
+            let mut meta = vec![];
+            for m in 0..rng.below(3) {
+                meta.push((format!("k{m}"), rng.ascii_name(0, 6)));
+            }
+            meta.sort();
+            TargetRec {
+                identifier: if rng.chance(1, 6) { format!("sérvér-{i}-ü") } else { format!("srv-{i}-{}", rng.ascii_name(2, 6)) },
+                address: random_addr(rng).parse().expect("generated address"),
+                meta,
+            }
+        })
+        .collect()
+}
+
+// ---------------------------------------------------------------------------------------------
+
+#[derive(Clone, Debug, Default)]
+pub struct Facts {
+    pub names: Vec<&'static str>,
+    pub enc_flag: Option<bool>,
+    pub enc_key: Option<Vec<u8>>,
+    pub login_success: Option<(u128, String)>,
+    pub cookie_requests: Vec<String>,
+    /// (key, payload, t_ns, index in the clientbound sequence)
+    pub store_cookies: Vec<(String, Vec<u8>, u64, usize)>,
+    pub transfers: Vec<(String, i32, u64, usize)>,
+    pub disconnects: Vec<(Value, u64, usize)>,
+    pub keep_alives: Vec<(u64, u64)>,
+    pub auth_calls: Vec<CallRecord>,
+    pub discover_calls: Vec<CallRecord>,
+    pub filter_calls: Vec<CallRecord>,
+    pub select_calls: Vec<CallRecord>,
+    pub localize_calls: Vec<CallRecord>,
+    pub status_calls: Vec<CallRecord>,
+    pub undecodable: usize,
+}
+
+pub fn facts(run: &Run) -> Facts {
+    let mut f = Facts { names: run.client.names(), ..Default::default() };
+    for (i, r) in run.client.received.iter().enumerate() {
+        match &r.pkt {
+            Ok(Pkt::EncryptionRequest { public_key, should_authenticate, .. }) => {
+                f.enc_flag = Some(*should_authenticate);
+                f.enc_key = Some(public_key.clone());
+            }
+            Ok(Pkt::LoginSuccess { uuid, name, .. }) => f.login_success = Some((*uuid, name.clone())),
+            Ok(Pkt::LoginCookieRequest { key }) => f.cookie_requests.push(key.clone()),
+            Ok(Pkt::StoreCookie { key, payload }) => f.store_cookies.push((key.clone(), payload.clone(), r.t_ns, i)),
+            Ok(Pkt::Transfer { host, port }) => f.transfers.push((host.clone(), *port, r.t_ns, i)),
+            Ok(Pkt::ConfDisconnect { reason }) => f.disconnects.push((reason.clone(), r.t_ns, i)),
+            Ok(Pkt::ConfKeepAliveOut { id }) => f.keep_alives.push((*id, r.t_ns)),
+            Ok(_) => {}
+            Err(_) => f.undecodable += 1,
+        }
+    }
+    for c in &run.calls {
+        match c.call {
+            Call::Authenticate { .. } => f.auth_calls.push(c.clone()),
+            Call::Discover => f.discover_calls.push(c.clone()),
+            Call::Filter { .. } => f.filter_calls.push(c.clone()),
+            Call::Select { .. } => f.select_calls.push(c.clone()),
+            Call::Localize { .. } => f.localize_calls.push(c.clone()),
+            Call::Status { .. } => f.status_calls.push(c.clone()),
+        }
+    }
+    f
+}
+
+pub const AUTH_KEY: &str = "passage:authentication";
+pub const SESSION_KEY: &str = "passage:session";
+
+/// Splits a stored/presented auth cookie into (tag ok under `secret`, parsed JSON body).
+pub fn open_cookie(payload: &[u8], secret: &[u8]) -> (bool, Option<Value>) {
+    if payload.len() < 32 {
+        return (false, None);
+    }
+    let tag_ok = refcrypto::hmac_sha256(secret, &payload[32..])[..] == payload[..32];
+    (tag_ok, serde_json::from_slice::<Value>(&payload[32..]).ok())
+}
+
+pub fn props_json(props: &[Prop]) -> Value {
+    Value::Array(
+        props
+            .iter()
+            .map(|p| serde_json::json!({"name": p.name, "value": p.value, "signature": p.signature}))
+            .collect(),
+    )
+}
+
+/// A standard "routes fine" adapter script.
+pub fn routing_adapters(auth: Option<(&Ident, &[Prop])>, targets: Vec<TargetRec>) -> AdapterScript {
+    AdapterScript {
+        auth: match auth {
+            Some((id, p)) => Outcome::Ok(profile(id, p)),
+            None => Outcome::Err,
+        },
+        discovery: Outcome::Ok(targets),
+        ..Default::default()
+    }
+}
+
 pub fn smoke(cli: &Cli) -> i32 {
     let mut rng = Rng::new(cli.seed);
     let claimed = ident(&mut rng, "claim");
     let authed = ident(&mut rng, "auth");
-    let p = ScriptParams { intent: Intent::Login, address: "play.example.org", port: 25565, protocol: 770, claimed: &claimed, locale: "de_DE", ping_payload: 7, client_info_delay: Duration::from_secs(1) };
-    let mut secret = [0u8; 16];
-    rng.fill(&mut secret);
-    let plan = default_plan(&p, secret);
+    let p = ScriptParams {
+        intent: Intent::Login,
+        address: "play.example.org",
+        port: 25565,
+        protocol: 770,
+        claimed: &claimed,
+        locale: "de_DE",
+        ping_payload: 7,
+        client_info_delay: Duration::from_secs(1),
+    };
+    let plan = default_plan(&p, secret16(&mut rng));
     let adapters = AdapterScript {
         auth: Outcome::Ok(profile(&authed, &[])),
         discovery: Outcome::Ok(vec![target("lobby-1", "10.1.2.3:25570")]),
@@ -38,6 +179,6 @@ pub fn smoke(cli: &Cli) -> i32 {
     };
     let sc = default_scenario("smoke", plan, adapters, ServerCfg { secret: Some(b"k".to_vec()), ..Default::default() });
     let run = run(&sc);
-    println!("{}", serde_json::to_string_pretty(&run_summary(&run)).unwrap());
+    println!("{}", serde_json::to_string_pretty(&run_summary(&run)).unwrap_or_default());
     0
 }
